@@ -2,6 +2,7 @@
 mod backends;
 mod c15;
 mod c16;
+mod c29;
 mod c33;
 
 use proptest::prelude::*;
@@ -31,6 +32,7 @@ fn main() {
     match args.id.as_str() {
         "C15" => c15::run(&mut check),
         "C16" => c16::run(&mut check),
+        "C29" => c29::run(&mut check),
         "C33" => c33::run(&mut check),
         other => vcommon::harness_error(format!("genrun does not serve {other}")),
     }
